@@ -17,8 +17,8 @@ sys.path.insert(0, os.path.join(os.path.dirname(os.path.abspath(__file__)), ".."
 import vlib, runner
 
 PID = "C08"
-NB, NC = 27, 30
-MEMBERS = [6, 1, 1, 1, 2, 2, 1, 1, 1, 1, 1, 1, 5, 4, 2, 6, 1, 1, 1, 1, 1, 8, 2, 1, 2, 2, 1, 4, 3, 1]
+NB, NC = 27, 42          # 30 built-in classes + 12 decoy classes of the harness whose names extend / shorten / re-case built-in names
+MEMBERS = [6, 1, 1, 1, 2, 2, 1, 1, 1, 1, 1, 1, 5, 4, 2, 6, 1, 1, 1, 1, 1, 8, 2, 1, 2, 2, 1, 4, 3, 1] + [1] * 12
 HOWS = ["inst", "impl", "tinst", "timpl", "meth", "tmeth", "implm", "timplm"]
 
 
